@@ -61,54 +61,12 @@ def check_obligations(ctx):
     #     (translator/geminis.py, prox.py) and the companion files Props/C01Gen.lean / C05Gen.lean, re-checked by `do_prove`
     #     on the regenerated definitions, prove them equal to the guarded hand models the definedness theorems speak about
     #     (`clipP`, `mmdDeltaOva` / `mmdDeltaOvo`, `mmdGrad`, `linearProxRow`): however the guards are spelled.
-    #   * WassersteinGEMINI.evaluate has no translator: its guard is searched in the syntax tree (any spelling of the call).
-    missing = wasserstein_guards(core.REPO)
-    ctx.extra["source_guards_checked"] = {"by_equality_theorem": ["C01Gen (KL, TV, Hellinger, chi2, MMD)", "C05Gen (_prox_grad.py)"],
-                                          "by_syntax_tree": ["WassersteinGEMINI.evaluate: np.clip(y_pred, self.epsilon, 1 - self.epsilon)"]}
-    if missing:
-        ctx.proof["broken"].append({"theorem": "GemVerif.Props.C17.wasserstein_defined",
-                                    "reason": "guards assumed by the definedness theorems are gone from the source: " + "; ".join(missing)})
-
-
-def wasserstein_guards(repo):
-    """the statement `<name> = np.clip(y_pred, self.epsilon, 1 - self.epsilon)` (bounds positional or as `a_min=` / `a_max=`, any
-    layout) is in WassersteinGEMINI.evaluate, at the top level of its body (not under a condition or in a loop); returns the
-    list of what is missing.  (Like the text search it replaces, it does not follow the uses of the clipped value.)"""
-    import ast
-    rel = "gemclus/gemini/_geomdistances.py"
-    try:
-        tree = ast.parse(open(os.path.join(repo, rel)).read())
-    except (OSError, SyntaxError) as e:
-        return [f"{rel}: {type(e).__name__}"]
-    nps = {a.asname or "numpy" for n in tree.body if isinstance(n, ast.Import) for a in n.names if a.name == "numpy"}
-    cls = next((n for n in tree.body if isinstance(n, ast.ClassDef) and n.name == "WassersteinGEMINI"), None)
-    fn = next((f for f in (cls.body if cls else []) if isinstance(f, ast.FunctionDef) and f.name == "evaluate"), None)
-    if fn is None:
-        return [f"{rel}: WassersteinGEMINI.evaluate not found"]
-    if len(fn.args.args) < 2:
-        return [f"{rel}: WassersteinGEMINI.evaluate has no prediction argument"]
-    pred = fn.args.args[1].arg
-    for st in fn.body:
-        if not (isinstance(st, ast.Assign) and isinstance(st.value, ast.Call)):
-            continue
-        c = st.value
-        f = c.func
-        if not (isinstance(f, ast.Attribute) and f.attr == "clip" and isinstance(f.value, ast.Name) and f.value.id in nps):
-            continue
-        kw = {k.arg: k.value for k in c.keywords}
-        args = list(c.args)
-        if len(args) == 3 and not kw:
-            x, lo, hi = args
-        elif len(args) == 2 and set(kw) == {"a_max"}:
-            x, lo, hi = args[0], args[1], kw["a_max"]
-        elif len(args) == 1 and set(kw) == {"a_min", "a_max"} and len(c.keywords) == 2:
-            x, lo, hi = args[0], kw["a_min"], kw["a_max"]
-        else:
-            continue
-        if isinstance(x, ast.Name) and x.id == pred and ast.unparse(lo) == "self.epsilon" and ast.unparse(hi) == "1 - self.epsilon":
-            return []
-    return [f"{rel}: WassersteinGEMINI.evaluate no longer clips `{pred}` to [self.epsilon, 1 - self.epsilon] with np.clip at the "
-            "top level of its body"]
+    #   * WassersteinGEMINI.evaluate (np.clip of the predictions; the divisors `pi * N`, `N * N * pi`; the weight vectors handed
+    #     to `ot.emd2`): TRANSLATED as well (translator/wass.py: loops as folds, POT a parameter); Props/C01WassGen.lean proves the
+    #     regenerated definitions equal to `wassScore` / `wassGrad` (over `clipP`, `wassWeights`), which `wasserstein_defined`
+    #     speaks about.  (This replaces the search of the `np.clip` call in the syntax tree.)
+    ctx.extra["source_guards_checked"] = {"by_equality_theorem": ["C01Gen (KL, TV, Hellinger, chi2, MMD)", "C05Gen (_prox_grad.py)",
+                                                                   "C01WassGen (WassersteinGEMINI.evaluate)"]}
 
 
 def regen_companions(ctx):
